@@ -95,6 +95,9 @@ def gen_method(rng, big=False):
         for a, b in zip(cuts[0::2], cuts[1::2]):
             if a < b:
                 tries.append((a, b, rng.randrange(len(handlers))))
+        if tries and not pays and rng.random() < 0.4:       # the last range runs to the very end of the code (start + count = insns_size)
+            a, b, h = tries[-1]
+            tries[-1] = (a, nb + 1, h)
         if len(tries) >= 2 and rng.random() < 0.3:        # adjacent ranges
             a, b, h = tries[1]
             tries[1] = (tries[0][1], b, h)
